@@ -189,7 +189,7 @@ def make_case(rng, method=None):
     pos = method in ('poisson', 'poisson_cv')
     vk = gen.pick(rng, ['pos', 'posint']) if pos else gen.pick(rng, ['normal', 'smallint_f', 'int'])
     meas = gen.values(rng, (len(cond), n_ch), vk)
-    nan = gen.pick(rng, ['none', 'none', 'channel', 'per_obs', 'no_valid'])
+    nan = gen.pick(rng, ['none', 'none', 'channel', 'per_obs', 'no_valid', 'whole_obs'])
     prec = gen.spd(rng, n_ch, 50.0) if method in ('mahalanobis', 'crossnobis') and rng.integers(3) else None
     fk = gen.pick(rng, ['str', 'int', 'float_frac', 'float_frac'])
     if fk == 'str':
@@ -225,6 +225,10 @@ def with_nan(rng, case):
         m[j, half or 1:] = np.nan
         if half == 0:
             m[j, :] = np.nan
+    elif kind == 'whole_obs':
+        # a rejected trial: the very first observation has no valid channel at all (its condition is still the first to
+        # appear, and stays in the RDM even if this was its only observation)
+        m[0, :] = np.nan
     return m
 
 
